@@ -174,3 +174,21 @@ Lemma eof_exit_matches_generated : forall n p a,
   p_pending p = None -> p_stream p = [] ->
   poll_loop false (S n) p a = Ok (set_eof p true, negb MP_EOF_NO_WAKE).
 Proof. intros n p a H H0. cbn [poll_loop]. rewrite H, H0. reflexivity. Qed.
+
+(* payload.rs append_pending: the Overflow guard, `available = buffer_limit - buf.len()` derived
+   from the buffer on EVERY call (no cached room — the region of seeded change C15-3),
+   `cmp::min(data.len(), available)`, and the whole/split decision *)
+Lemma append_pending_matches_generated : forall p data,
+  p_pending p = Some data -> is_nil data = false ->
+  append_pending p =
+    if MP_AP_OVERFLOW_TEST (lenN (p_buf p)) (p_limit p) then Err EOverflow
+    else
+      let len := MP_AP_LEN (lenN data) (MP_AP_AVAILABLE (p_limit p) (lenN (p_buf p))) in
+      if MP_AP_WHOLE_TEST len (lenN data)
+      then Ok (set_buf (set_pending p None) (p_buf p ++ data), negb (len =? 0))
+      else Ok (set_pending (set_buf (set_pending p None) (p_buf p ++ firstn (N.to_nat len) data))
+                           (Some (skipn (N.to_nat len) data)), negb (len =? 0)).
+Proof. intros p data H H0. unfold append_pending. rewrite H, H0. reflexivity. Qed.
+
+Lemma append_pending_call_sites_generated : MP_AP_CALL_SITES = 2%nat.
+Proof. reflexivity. Qed.
